@@ -16,6 +16,7 @@ CONSTANTS
   YieldK <- K_None
   TerminalQueries = TRUE
   AllowEmpty = FALSE
+  AddForms <- F_HistQ
 
 INVARIANT WorkspaceWellFormed
 INVARIANT SplitPartitions
